@@ -1,0 +1,353 @@
+//go:build verif
+
+package staking
+
+// Contracts for the deductive checker in /verif (comment-only; compiled only with -tags verif).
+// C16, query side: the read-only staking methods report what the native queries report.
+// Lib specs: /verif/specs/c16q/*.spec (native staking queries over the abstract Cosmos state, abi.Arguments.Copy),
+// /verif/specs/c04 (address model, bech32 helpers, abi packing).
+
+// pageRequestABI is the Go type go-ethereum's abi.Arguments.Unpack produces for the `PageRequest` tuple of the staking ABI
+// (accounts/abi/type.go: reflect.StructOf with ToCamelCase field names and json tags); declared here only to name it in contracts.
+type pageRequestABI = struct {
+	Key        []uint8 "json:\"key\""
+	Offset     uint64  "json:\"offset\""
+	Limit      uint64  "json:\"limit\""
+	CountTotal bool    "json:\"countTotal\""
+	Reverse    bool    "json:\"reverse\""
+}
+
+// bondStatusMap names the type of stakingtypes.BondStatus_value in contracts.
+type bondStatusMap = map[string]int32
+
+// anyList names the type of ABI argument lists in contracts.
+type anyList = []interface{}
+
+/*@
+alias PageReqABI github.com/haqq-network/haqq/precompiles/staking.pageRequestABI
+alias ValInfo github.com/haqq-network/haqq/precompiles/staking.ValidatorInfo
+alias SdkUbdEntry github.com/cosmos/cosmos-sdk/x/staking/types.UnbondingDelegationEntry
+alias SdkRedEntry github.com/cosmos/cosmos-sdk/x/staking/types.RedelegationEntry
+alias SdkRedEntryResp github.com/cosmos/cosmos-sdk/x/staking/types.RedelegationEntryResponse
+alias UbdEntry github.com/haqq-network/haqq/precompiles/staking.UnbondingDelegationEntry
+alias RedEntry github.com/haqq-network/haqq/precompiles/staking.RedelegationEntry
+alias RedEntryResp github.com/haqq-network/haqq/precompiles/staking.RedelegationEntryResponse
+
+// ------------------------------------------------------------------ request constructors: the request is the decoded arguments
+func NewDelegationRequest
+    let ok = len(args) == 2 && isdyn(args[0], Address) && dyn(args[0], Address) != zero_EvmAddr && isdyn(args[1], string)
+    ensures err_iff: (result.1 == nil) == ok
+    ensures fields: result.1 == nil ==> result.0 != nil && fresh(result.0) && result.0.DelegatorAddr == bech_of(dyn(args[0], Address)) && result.0.ValidatorAddr == dyn(args[1], string)
+    ensures refused: result.1 != nil ==> result.0 == nil
+
+func NewUnbondingDelegationRequest
+    let ok = len(args) == 2 && isdyn(args[0], Address) && dyn(args[0], Address) != zero_EvmAddr && isdyn(args[1], string)
+    ensures err_iff: (result.1 == nil) == ok
+    ensures fields: result.1 == nil ==> result.0 != nil && fresh(result.0) && result.0.DelegatorAddr == bech_of(dyn(args[0], Address)) && result.0.ValidatorAddr == dyn(args[1], string)
+    ensures refused: result.1 != nil ==> result.0 == nil
+
+func NewValidatorRequest
+    let ok = len(args) == 1 && isdyn(args[0], string)
+    ensures err_iff: (result.1 == nil) == ok
+    ensures fields: result.1 == nil ==> result.0 != nil && fresh(result.0) && result.0.ValidatorAddr == dyn(args[0], string)
+    ensures refused: result.1 != nil ==> result.0 == nil
+
+// (delegator, source validator, destination validator) -> the three byte addresses GetRedelegation is keyed by
+func NewRedelegationRequest
+    let ok = len(args) == 3 && isdyn(args[0], Address) && dyn(args[0], Address) != zero_EvmAddr && isdyn(args[1], string) && isdyn(args[2], string)
+    ensures err_iff: (result.1 == nil) == (ok && val_bech_ok(dyn(args[1], string)) && val_bech_ok(dyn(args[2], string)))
+    ensures fields: result.1 == nil ==> result.0 != nil && fresh(result.0) && result.0.DelegatorAddress == addr_bytes(dyn(args[0], Address))
+            && result.0.ValidatorSrcAddress == val_of_bech(dyn(args[1], string)) && result.0.ValidatorDstAddress == val_of_bech(dyn(args[2], string))
+    ensures refused: result.1 != nil ==> result.0 == nil
+
+// (status, page request) copied through abi.Arguments.Copy into ValidatorsInput; the request points at the copied page request
+func NewValidatorsRequest
+    requires method: method != nil
+    let ok = len(args) == 2 && abi_copy_ok(method.Inputs, args)
+    ensures err_iff: (result.1 == nil) == ok
+    ensures fields: result.1 == nil ==> result.0 != nil && fresh(result.0) && isdyn(args[0], string) && result.0.Status == dyn(args[0], string) && result.0.Pagination != nil
+            && (isdyn(args[1], PageReqABI) ==> pagereq_copied(*result.0.Pagination, dyn(args[1], PageReqABI)))
+    ensures refused: result.1 != nil ==> result.0 == nil
+
+// (delegator, source, destination, page request): the zero delegator address stands for "no delegator" (empty string in the
+// native request); a query naming neither a delegator nor a source validator is refused
+func NewRedelegationsRequest
+    requires method: method != nil
+    let del = dyn(args[0], Address)
+    let src = dyn(args[1], string)
+    let dst = dyn(args[2], string)
+    let ok = len(args) == 4 && abi_copy_ok(method.Inputs, args) && !(del == zero_EvmAddr && src == "")
+    ensures err_iff: (result.1 == nil) == ok
+    ensures fields: result.1 == nil ==> result.0 != nil && fresh(result.0) && isdyn(args[0], Address) && isdyn(args[1], string) && isdyn(args[2], string)
+            && result.0.DelegatorAddr == ite(del == zero_EvmAddr, "", bech_of(del)) && result.0.SrcValidatorAddr == src && result.0.DstValidatorAddr == dst
+            && result.0.Pagination != nil && (isdyn(args[3], PageReqABI) ==> pagereq_copied(*result.0.Pagination, dyn(args[3], PageReqABI)))
+    ensures refused: result.1 != nil ==> result.0 == nil
+
+// ------------------------------------------------------------------ output conversions: every field of the output is the native field
+// a *big.Int field of the output holds the native integer (math.Int) / 18-decimal scaled integer (LegacyDec)
+specfunc bigis(p *math/big.Int, n int) bool = p != nil && *p == n
+
+func (*DelegationOutput).FromResponse
+    requires nonnil: res != nil && res.DelegationResponse != nil
+    modifies *do
+    ensures same: result == do
+    ensures shares: bigis(do.Shares, res.DelegationResponse.Delegation.Shares)
+    ensures balance: do.Balance.Denom == res.DelegationResponse.Balance.Denom && bigis(do.Balance.Amount, res.DelegationResponse.Balance.Amount)
+
+specfunc ubd_entry_conv(o UbdEntry, e SdkUbdEntry) bool = o.CreationHeight == e.CreationHeight && o.CompletionTime == time_unix(e.CompletionTime)
+        && bigis(o.InitialBalance, e.InitialBalance) && bigis(o.Balance, e.Balance) && o.UnbondingId == e.UnbondingId && o.UnbondingOnHoldRefCount == e.UnbondingOnHoldRefCount
+
+func (*UnbondingDelegationOutput).FromResponse
+    requires nonnil: res != nil
+    modifies *do
+    ensures same: result == do
+    ensures head: do.UnbondingDelegation.DelegatorAddress == res.Unbond.DelegatorAddress && do.UnbondingDelegation.ValidatorAddress == res.Unbond.ValidatorAddress
+    ensures shape: len(do.UnbondingDelegation.Entries) == len(res.Unbond.Entries)
+    ensures entries: forall k int :: 0 <= k && k < len(res.Unbond.Entries) ==> ubd_entry_conv(do.UnbondingDelegation.Entries[k], res.Unbond.Entries[k])
+    loop 1 invariant idx: 0 <= #i && #i <= len(res.Unbond.Entries) && len(do.UnbondingDelegation.Entries) == len(res.Unbond.Entries)
+    loop 1 invariant head: do.UnbondingDelegation.DelegatorAddress == res.Unbond.DelegatorAddress && do.UnbondingDelegation.ValidatorAddress == res.Unbond.ValidatorAddress
+    loop 1 invariant entries: forall k int :: 0 <= k && k < #i ==> ubd_entry_conv(do.UnbondingDelegation.Entries[k], res.Unbond.Entries[k])
+            && fresh(do.UnbondingDelegation.Entries[k].InitialBalance) && fresh(do.UnbondingDelegation.Entries[k].Balance)
+
+// the consensus key is reported as a string: a function of the stored Any (base64 of the key bytes when the Any carries a
+// cached public key, its String() otherwise); the Any is not written by anything in this package
+func FormatConsensusPubkey
+    requires nonnil: consensusPubkey != nil
+    pure as fmt_pubkey
+    ensures key: implements(any_cached(consensusPubkey), "github.com/cosmos/cosmos-sdk/crypto/types.PubKey")
+            ==> result == b64_encode(glob_base64_StdEncoding, pubkey_bytes(any_cached(consensusPubkey)))
+
+// ValidatorInfo <- native Validator. `description` reports Description.Details (documented TODO in the code), `commission`
+// the current rate; status is the numeric value of the enum.
+specfunc val_conv(o ValInfo, v SdkValidator) bool = o.OperatorAddress == v.OperatorAddress && o.ConsensusPubkey == fmt_pubkey(v.ConsensusPubkey)
+        && o.Jailed == v.Jailed && o.Status == v.Status && bigis(o.Tokens, v.Tokens) && bigis(o.DelegatorShares, v.DelegatorShares)
+        && o.Description == v.Description.Details && o.UnbondingHeight == v.UnbondingHeight && o.UnbondingTime == time_unix(v.UnbondingTime)
+        && bigis(o.Commission, v.Commission.CommissionRates.Rate) && bigis(o.MinSelfDelegation, v.MinSelfDelegation)
+specfunc val_fresh(o ValInfo) bool = fresh(o.Tokens) && fresh(o.DelegatorShares) && fresh(o.Commission) && fresh(o.MinSelfDelegation)
+
+func (*ValidatorOutput).FromResponse
+    requires nonnil: res != nil && sdk_validator_wf(res.Validator)
+    ensures conv: val_conv(result.Validator, res.Validator)
+
+func (*ValidatorsOutput).FromResponse
+    requires nonnil: res != nil && (forall k int :: 0 <= k && k < len(res.Validators) ==> sdk_validator_wf(res.Validators[k]))
+    modifies *vo
+    ensures same: result == vo
+    ensures shape: len(vo.Validators) == len(res.Validators)
+    ensures elems: forall k int :: 0 <= k && k < len(res.Validators) ==> val_conv(vo.Validators[k], res.Validators[k])
+    ensures page: res.Pagination != nil ==> vo.PageResponse.Total == res.Pagination.Total && vo.PageResponse.NextKey == res.Pagination.NextKey
+    ensures nopage: res.Pagination == nil ==> vo.PageResponse == old(vo.PageResponse)
+    loop 1 invariant idx: 0 <= #i && #i <= len(res.Validators) && len(vo.Validators) == len(res.Validators) && vo.PageResponse == old(vo.PageResponse)
+    loop 1 invariant elems: forall k int :: 0 <= k && k < #i ==> val_conv(vo.Validators[k], res.Validators[k]) && val_fresh(vo.Validators[k])
+
+specfunc red_entry_conv(o RedEntry, e SdkRedEntry) bool = o.CreationHeight == e.CreationHeight && o.CompletionTime == time_unix(e.CompletionTime)
+        && bigis(o.InitialBalance, e.InitialBalance) && bigis(o.SharesDst, e.SharesDst)
+specfunc red_entry_fresh(o RedEntry) bool = fresh(o.InitialBalance) && fresh(o.SharesDst)
+
+func (*RedelegationOutput).FromResponse
+    modifies *ro
+    ensures same: result == ro
+    ensures head: ro.Redelegation.DelegatorAddress == res.DelegatorAddress && ro.Redelegation.ValidatorSrcAddress == res.ValidatorSrcAddress
+            && ro.Redelegation.ValidatorDstAddress == res.ValidatorDstAddress
+    ensures shape: len(ro.Redelegation.Entries) == len(res.Entries)
+    ensures entries: forall k int :: 0 <= k && k < len(res.Entries) ==> red_entry_conv(ro.Redelegation.Entries[k], res.Entries[k])
+    loop 1 invariant idx: 0 <= #i && #i <= len(res.Entries) && len(ro.Redelegation.Entries) == len(res.Entries)
+    loop 1 invariant head: ro.Redelegation.DelegatorAddress == res.DelegatorAddress && ro.Redelegation.ValidatorSrcAddress == res.ValidatorSrcAddress
+            && ro.Redelegation.ValidatorDstAddress == res.ValidatorDstAddress
+    loop 1 invariant entries: forall k int :: 0 <= k && k < #i ==> red_entry_conv(ro.Redelegation.Entries[k], res.Entries[k]) && red_entry_fresh(ro.Redelegation.Entries[k])
+
+// RedelegationsOutput <- QueryRedelegationsResponse: response by response, and inside each response both entry lists
+// (the redelegation's own entries and the entry responses with their balances), element by element
+alias SdkRedResp github.com/cosmos/cosmos-sdk/x/staking/types.RedelegationResponse
+alias RedResp github.com/haqq-network/haqq/precompiles/staking.RedelegationResponse
+specfunc red_entryresp_conv(o RedEntryResp, e SdkRedEntryResp) bool = red_entry_conv(o.RedelegationEntry, e.RedelegationEntry) && bigis(o.Balance, e.Balance)
+specfunc red_entryresp_fresh(o RedEntryResp) bool = red_entry_fresh(o.RedelegationEntry) && fresh(o.Balance)
+specfunc red_resp_conv(o RedResp, r SdkRedResp) bool = o.Redelegation.DelegatorAddress == r.Redelegation.DelegatorAddress
+        && o.Redelegation.ValidatorSrcAddress == r.Redelegation.ValidatorSrcAddress && o.Redelegation.ValidatorDstAddress == r.Redelegation.ValidatorDstAddress
+        && len(o.Redelegation.Entries) == len(r.Redelegation.Entries)
+        && (forall a int :: 0 <= a && a < len(r.Redelegation.Entries) ==> red_entry_conv(o.Redelegation.Entries[a], r.Redelegation.Entries[a]) && red_entry_fresh(o.Redelegation.Entries[a]))
+        && len(o.Entries) == len(r.Entries)
+        && (forall b int :: 0 <= b && b < len(r.Entries) ==> red_entryresp_conv(o.Entries[b], r.Entries[b]) && red_entryresp_fresh(o.Entries[b]))
+
+func (*RedelegationsOutput).FromResponse
+    requires nonnil: res != nil
+    modifies *ro
+    let R = res.RedelegationResponses
+    ensures same: result == ro
+    ensures shape: len(ro.Response) == len(R)
+    ensures elems: forall k int :: 0 <= k && k < len(R) ==> red_resp_conv(ro.Response[k], R[k])
+    ensures page: res.Pagination != nil ==> ro.PageResponse.Total == res.Pagination.Total && ro.PageResponse.NextKey == res.Pagination.NextKey
+    ensures nopage: res.Pagination == nil ==> ro.PageResponse == old(ro.PageResponse)
+    loop 1 invariant idx: 0 <= #i && #i <= len(R) && len(ro.Response) == len(R) && ro.PageResponse == old(ro.PageResponse)
+    loop 1 invariant elems: forall k int :: 0 <= k && k < #i ==> red_resp_conv(ro.Response[k], R[k])
+    loop 2,3 invariant outer: 0 <= i && i < len(R) && resp == R[i] && len(ro.Response) == len(R) && ro.PageResponse == old(ro.PageResponse)
+    loop 2,3 invariant outer_elems: forall k int :: 0 <= k && k < i ==> red_resp_conv(ro.Response[k], R[k])
+    loop 2 invariant idx: 0 <= #i && #i <= len(resp.Entries) && len(entries) == len(resp.Entries)
+    loop 2 invariant elems: forall b int :: 0 <= b && b < #i ==> red_entryresp_conv(entries[b], resp.Entries[b]) && red_entryresp_fresh(entries[b])
+    loop 3 invariant entries_done: len(entries) == len(resp.Entries)
+            && (forall b int :: 0 <= b && b < len(resp.Entries) ==> red_entryresp_conv(entries[b], resp.Entries[b]) && red_entryresp_fresh(entries[b]))
+    loop 3 invariant idx: 0 <= #i && #i <= len(resp.Redelegation.Entries) && len(redelEntries) == len(resp.Redelegation.Entries)
+    loop 3 invariant elems: forall a int :: 0 <= a && a < #i ==> red_entry_conv(redelEntries[a], resp.Redelegation.Entries[a]) && red_entry_fresh(redelEntries[a])
+
+// ------------------------------------------------------------------ the query methods
+// Preconditions are facts of the only call site (Precompile.Run): method is non-nil, the keeper is the one built by NewKeeper.
+// Every method makes exactly one native query, with the decoded request, in the caller's context and on the precompile's keeper;
+// what is ABI-packed (call-site clause at abi.Arguments.Pack) is the conversion of the native response; the Cosmos state, the
+// grants and the EVM balance mirror are untouched (no `modifies`: frame obligations).
+alias CoinT github.com/haqq-network/haqq/precompiles/common.Coin
+alias UbdRespT github.com/haqq-network/haqq/precompiles/staking.UnbondingDelegationResponse
+alias RedValuesT github.com/haqq-network/haqq/precompiles/staking.RedelegationValues
+alias ValInfoList []github.com/haqq-network/haqq/precompiles/staking.ValidatorInfo
+alias RedRespList []github.com/haqq-network/haqq/precompiles/staking.RedelegationResponse
+
+func (*DelegationOutput).Pack
+    inline
+func (*ValidatorsOutput).Pack
+    inline
+func (*RedelegationsOutput).Pack
+    inline
+
+func DefaultValidatorOutput
+    ensures zero: result.Validator.OperatorAddress == "" && result.Validator.ConsensusPubkey == "" && !result.Validator.Jailed && result.Validator.Status == 0
+            && bigis(result.Validator.Tokens, 0) && bigis(result.Validator.DelegatorShares, 0) && result.Validator.Description == "" && result.Validator.UnbondingHeight == 0
+            && result.Validator.UnbondingTime == 0 && bigis(result.Validator.Commission, 0) && bigis(result.Validator.MinSelfDelegation, 0)
+
+// delegation(delegator, validator) -> (shares, balance). A missing delegation is reported as (0, 0 bond denom) - the case is
+// recognised by the text of the native error ("delegation with delegator %s not found for validator %s", grpc_query.go)
+func (Precompile).Delegation
+    params p, ctx, contract, method, input
+    requires wf: method != nil && p.stakingKeeper.Keeper != nil
+    let okargs = len(input) == 2 && isdyn(input[0], Address) && dyn(input[0], Address) != zero_EvmAddr && isdyn(input[1], string)
+    let del = bech_of(dyn(input[0], Address))
+    let val = dyn(input[1], string)
+    let found = qdelegation_ok(cstate, ctx, del, val)
+    let R = qdelegation_res(cstate, ctx, del, val)
+    let nativeErr = ret(Delegation, 1, 1)
+    let missing = str_contains(err_text(nativeErr), ret(Sprintf, 1, 0))
+    call Querier.Delegation requires named: req != nil && req.DelegatorAddr == del && req.ValidatorAddr == val && sdkctx_of(c) == ctx && k.Keeper == p.stakingKeeper.Keeper
+    call Sprintf requires text: format == "delegation with delegator %s not found for validator %s" && len(a) == 2 && isdyn(a[0], string) && dyn(a[0], string) == del
+            && isdyn(a[1], string) && dyn(a[1], string) == val
+    call Contains requires text: s == err_text(nativeErr) && substr == ret(Sprintf, 1, 0)
+    call Arguments.Pack requires packed: arguments == method.Outputs && len(args) == 2 && isdyn(args[0], *BigInt) && isdyn(args[1], CoinT)
+            && ite(found, bigis(dyn(args[0], *BigInt), R.Delegation.Shares) && dyn(args[1], CoinT).Denom == R.Balance.Denom && bigis(dyn(args[1], CoinT).Amount, R.Balance.Amount),
+                   bigis(dyn(args[0], *BigInt), 0) && dyn(args[1], CoinT).Denom == bond_denom(*p.stakingKeeper.Keeper, ctx) && bigis(dyn(args[1], CoinT).Amount, 0))
+    ensures refused: !okargs ==> result.1 != nil && len(result.0) == 0
+    ensures found: okargs && found ==> result.0 == ret(Pack, 1, 0) && result.1 == ret(Pack, 1, 1)
+    ensures missing: okargs && !found && missing ==> result.0 == ret(Pack, 2, 0) && result.1 == ret(Pack, 2, 1)
+    ensures other_error: okargs && !found && !missing ==> result.1 != nil && len(result.0) == 0
+
+// unbondingDelegation(delegator, validator) -> the unbonding delegation with all its entries; a missing one is reported as the
+// empty value (recognised by the native error text)
+func (Precompile).UnbondingDelegation
+    params p, ctx, contract, method, input
+    requires wf: method != nil && p.stakingKeeper.Keeper != nil
+    let okargs = len(input) == 2 && isdyn(input[0], Address) && dyn(input[0], Address) != zero_EvmAddr && isdyn(input[1], string)
+    let del = bech_of(dyn(input[0], Address))
+    let val = dyn(input[1], string)
+    let found = qunbonding_ok(cstate, ctx, del, val)
+    let R = qunbonding_res(cstate, ctx, del, val)
+    let nativeErr = ret(UnbondingDelegation, 1, 1)
+    let missing = str_contains(err_text(nativeErr), ret(Sprintf, 1, 0))
+    let O = dyn(args[0], UbdRespT)
+    call Querier.UnbondingDelegation requires named: req != nil && req.DelegatorAddr == del && req.ValidatorAddr == val && sdkctx_of(c) == ctx && k.Keeper == p.stakingKeeper.Keeper
+    call Sprintf requires text: format == "unbonding delegation with delegator %s not found for validator %s" && len(a) == 2 && isdyn(a[0], string) && dyn(a[0], string) == del
+            && isdyn(a[1], string) && dyn(a[1], string) == val
+    call Contains requires text: s == err_text(nativeErr) && substr == ret(Sprintf, 1, 0)
+    call Arguments.Pack requires packed: arguments == method.Outputs && len(args) == 1 && isdyn(args[0], UbdRespT)
+            && ite(found, O.DelegatorAddress == R.DelegatorAddress && O.ValidatorAddress == R.ValidatorAddress && len(O.Entries) == len(R.Entries)
+                          && (forall k int :: 0 <= k && k < len(R.Entries) ==> ubd_entry_conv(O.Entries[k], R.Entries[k])),
+                   O.DelegatorAddress == "" && O.ValidatorAddress == "" && len(O.Entries) == 0)
+    ensures refused: !okargs ==> result.1 != nil && len(result.0) == 0
+    ensures found: okargs && found ==> result.0 == ret(Pack, 1, 0) && result.1 == ret(Pack, 1, 1)
+    ensures missing: okargs && !found && missing ==> result.0 == ret(Pack, 2, 0) && result.1 == ret(Pack, 2, 1)
+    ensures other_error: okargs && !found && !missing ==> result.1 != nil && len(result.0) == 0
+
+// validator(validatorAddress) -> the validator; an unknown validator is reported as the all-zero value
+func (Precompile).Validator
+    params p, ctx, method, contract, input
+    requires wf: method != nil && p.stakingKeeper.Keeper != nil
+    let okargs = len(input) == 1 && isdyn(input[0], string)
+    let val = dyn(input[0], string)
+    let found = qvalidator_ok(cstate, ctx, val)
+    let R = qvalidator_res(cstate, ctx, val)
+    let nativeErr = ret(Validator, 1, 1)
+    let missing = str_contains(err_text(nativeErr), ret(Sprintf, 1, 0))
+    let O = dyn(args[0], ValInfo)
+    call Querier.Validator requires named: req != nil && req.ValidatorAddr == val && sdkctx_of(c) == ctx && k.Keeper == p.stakingKeeper.Keeper
+    call Sprintf requires text: format == "validator %s not found" && len(a) == 1 && isdyn(a[0], string) && dyn(a[0], string) == val
+    call Contains requires text: s == err_text(nativeErr) && substr == ret(Sprintf, 1, 0)
+    call Arguments.Pack requires packed: arguments == method.Outputs && len(args) == 1 && isdyn(args[0], ValInfo)
+            && ite(found, val_conv(O, R),
+                   O.OperatorAddress == "" && O.ConsensusPubkey == "" && !O.Jailed && O.Status == 0 && bigis(O.Tokens, 0) && bigis(O.DelegatorShares, 0) && O.Description == ""
+                   && O.UnbondingHeight == 0 && O.UnbondingTime == 0 && bigis(O.Commission, 0) && bigis(O.MinSelfDelegation, 0))
+    ensures refused: !okargs ==> result.1 != nil && len(result.0) == 0
+    ensures found: okargs && found ==> result.0 == ret(Pack, 1, 0) && result.1 == ret(Pack, 1, 1)
+    ensures missing: okargs && !found && missing ==> result.0 == ret(Pack, 2, 0) && result.1 == ret(Pack, 2, 1)
+    ensures other_error: okargs && !found && !missing ==> result.1 != nil && len(result.0) == 0
+
+// validators(status, pageRequest) -> (the validators of the native page, in its order, and the page response)
+func (Precompile).Validators
+    params p, ctx, method, contract, input
+    requires wf: method != nil && p.stakingKeeper.Keeper != nil
+    let okargs = len(input) == 2 && abi_copy_ok(method.Inputs, input)
+    let status = dyn(input[0], string)
+    let page = *ret(NewValidatorsRequest, 1, 0).Pagination
+    let found = qvalidators_ok(cstate, ctx, status, page)
+    let R = qvalidators_res(cstate, ctx, status, page)
+    let L = dyn(args[0], ValInfoList)
+    let P = dyn(args[1], SdkPageResp)
+    call Querier.Validators requires named: req == ret(NewValidatorsRequest, 1, 0) && req.Status == status && sdkctx_of(c) == ctx && k.Keeper == p.stakingKeeper.Keeper
+    call Querier.Validators requires page: isdyn(old(input[1]), PageReqABI) ==> pagereq_copied(*req.Pagination, dyn(old(input[1]), PageReqABI))
+    call Arguments.Pack requires packed: arguments == method.Outputs && len(args) == 2 && isdyn(args[0], ValInfoList) && isdyn(args[1], SdkPageResp)
+            && len(L) == len(R) && (forall k int :: 0 <= k && k < len(R) ==> val_conv(L[k], R[k]))
+            && ite(qvalidators_haspage(cstate, ctx, status, page), P.Total == qvalidators_page(cstate, ctx, status, page).Total && P.NextKey == qvalidators_page(cstate, ctx, status, page).NextKey,
+                   P.Total == 0 && len(P.NextKey) == 0)
+    ensures refused: !okargs ==> result.1 != nil && len(result.0) == 0
+    ensures found: okargs && found ==> result.0 == ret(Pack, 1, 0) && result.1 == ret(Pack, 1, 1)
+    ensures native_error: okargs && !found ==> result.1 != nil && len(result.0) == 0
+
+// redelegation(delegator, source, destination) -> the stored redelegation (keeper getter), the empty value when there is none
+func (Precompile).Redelegation
+    params p, ctx, method, contract, input
+    requires wf: method != nil && p.stakingKeeper.Keeper != nil
+    let okargs = len(input) == 3 && isdyn(input[0], Address) && dyn(input[0], Address) != zero_EvmAddr && isdyn(input[1], string) && isdyn(input[2], string)
+            && val_bech_ok(dyn(input[1], string)) && val_bech_ok(dyn(input[2], string))
+    let del = addr_bytes(dyn(input[0], Address))
+    let src = val_of_bech(dyn(input[1], string))
+    let dst = val_of_bech(dyn(input[2], string))
+    let R = stored_redelegation(cstate, ctx, del, src, dst)
+    let O = dyn(args[0], RedValuesT)
+    call GetRedelegation requires named: delAddr == del && valSrcAddr == src && valDstAddr == dst && ctx == old(ctx) && k == *p.stakingKeeper.Keeper
+    call Arguments.Pack requires packed: arguments == method.Outputs && len(args) == 1 && isdyn(args[0], RedValuesT)
+            && O.DelegatorAddress == R.DelegatorAddress && O.ValidatorSrcAddress == R.ValidatorSrcAddress && O.ValidatorDstAddress == R.ValidatorDstAddress
+            && len(O.Entries) == len(R.Entries) && (forall k int :: 0 <= k && k < len(R.Entries) ==> red_entry_conv(O.Entries[k], R.Entries[k]))
+    call Arguments.Pack requires missing: !stored_redelegation_found(cstate, ctx, del, src, dst) ==> O.DelegatorAddress == "" && O.ValidatorSrcAddress == "" && O.ValidatorDstAddress == "" && len(O.Entries) == 0
+    ensures refused: !okargs ==> result.1 != nil && len(result.0) == 0
+    ensures reported: okargs ==> result.0 == ret(Pack, 1, 0) && result.1 == ret(Pack, 1, 1)
+
+// redelegations(delegator, source, destination, pageRequest) -> (the responses of the native page, in order, each with both
+// entry lists, and the page response)
+func (Precompile).Redelegations
+    params p, ctx, method, contract, input
+    requires wf: method != nil && p.stakingKeeper.Keeper != nil
+    let del = dyn(input[0], Address)
+    let src = dyn(input[1], string)
+    let dst = dyn(input[2], string)
+    let okargs = len(input) == 4 && abi_copy_ok(method.Inputs, input) && !(del == zero_EvmAddr && src == "")
+    let delstr = ite(del == zero_EvmAddr, "", bech_of(del))
+    let page = *ret(NewRedelegationsRequest, 1, 0).Pagination
+    let found = qredelegations_ok(cstate, ctx, delstr, src, dst, page)
+    let R = qredelegations_res(cstate, ctx, delstr, src, dst, page)
+    let L = dyn(args[0], RedRespList)
+    let P = dyn(args[1], SdkPageResp)
+    call Querier.Redelegations requires named: req == ret(NewRedelegationsRequest, 1, 0) && req.DelegatorAddr == delstr && req.SrcValidatorAddr == src && req.DstValidatorAddr == dst
+            && sdkctx_of(c) == ctx && k.Keeper == p.stakingKeeper.Keeper
+    call Querier.Redelegations requires page: isdyn(old(input[3]), PageReqABI) ==> pagereq_copied(*req.Pagination, dyn(old(input[3]), PageReqABI))
+    call Arguments.Pack requires packed: arguments == method.Outputs && len(args) == 2 && isdyn(args[0], RedRespList) && isdyn(args[1], SdkPageResp)
+            && len(L) == len(R) && (forall k int :: 0 <= k && k < len(R) ==> red_resp_conv(L[k], R[k]))
+            && ite(qredelegations_haspage(cstate, ctx, delstr, src, dst, page), P.Total == qredelegations_page(cstate, ctx, delstr, src, dst, page).Total
+                   && P.NextKey == qredelegations_page(cstate, ctx, delstr, src, dst, page).NextKey, P.Total == 0 && len(P.NextKey) == 0)
+    ensures refused: !okargs ==> result.1 != nil && len(result.0) == 0
+    ensures found: okargs && found ==> result.0 == ret(Pack, 1, 0) && result.1 == ret(Pack, 1, 1)
+    ensures native_error: okargs && !found ==> result.1 != nil && len(result.0) == 0
+@*/
